@@ -102,7 +102,7 @@ PROPS = {
                         "names and files are ASCII (strings.ToLower / strings.Fields are Unicode-aware in Go)"],
     },
     "C14": {
-        "proof_files": ["Proofs/ClientFacts.v"],
+        "proof_files": ["Proofs/ClientFacts.v", "Proofs/ClientMore.v"],
         "runs": [{"engine": "clientinfo", "args": ["-mode", "probe"], "n_quick": 1500, "n_thorough": 150000},
                  {"engine": "clientinfo", "args": ["-mode", "headers"], "n_quick": 150, "n_thorough": 6000, "netns": True}],
         "trivial_tags": [r"^off$"],
@@ -122,7 +122,8 @@ PROPS = {
         "trusted_extra": ["translator harness/locks_extract.go (Go AST -> Gen/AccessTable.v) and its configuration of shared types / guarded fields",
                           "Go race detector (ThreadSanitizer runtime) for the stress half"],
         "generated": {"cmd": ["locks-extract"], "out": "Gen/AccessTable.v",
-                      "compile": ["Gen/AccessTable.v", "Properties/C15_instance.v"], "diag": "Gen/C15Diag.v"},
+                      "compile": ["Gen/AccessTable.v", "Properties/C15_instance.v"], "diag": "Gen/C15Diag.v",
+                      "theorem": "C15_table_ok"},
         "runs": [{"engine": "racestress", "args": [], "n_quick": 8, "n_thorough": 240, "netns": True}],
         "trivial_tags": [],
         "rule": "translator: every method of the shared types (hosts / lease / router client tables, mDNS tables, DoH last-modified map, "
@@ -140,6 +141,8 @@ PROPS = {
     },
     "C16": {
         "proof_files": ["Proofs/ListenFacts.v", "Mutants/ListenRace.v", "Proofs/StartFacts.v"],
+        "generated": {"cmd": ["start-extract"], "out": "Gen/StartParams.v",
+                      "compile": ["Gen/StartParams.v", "Properties/C16_instance.v"], "theorem": "C16_start_instance"},
         "runs": [{"engine": "listen", "args": [], "n_quick": 120, "n_thorough": 5000, "netns": True},
                  {"engine": "daemon", "args": ["-mode", "bind"], "n_quick": 25, "n_thorough": 300, "netns": True}],
         "trivial_tags": [],
@@ -191,7 +194,7 @@ PROPS = {
                         "the NetworkManager side step is outside the property (no /etc/NetworkManager in the scratch tree)"],
     },
     "C13": {
-        "proof_files": WIRE,
+        "proof_files": WIRE + ["Proofs/EcsWhole.v", "Proofs/CursorFacts.v", "Proofs/EcsParse.v"],
         "runs": [
             {"engine": "query", "args": ["-mode", "ecs"], "n_quick": 5000, "n_thorough": 300000},
             {"engine": "reply", "args": ["-mode", "seqecs"], "n_quick": 800, "n_thorough": 30000, "netns": True},
